@@ -8,6 +8,8 @@ import tlc
 import sp
 
 ASSUME = [
+    "requests through TorConfig.create_socks_endpoint are also made while an unrelated option has an unsaved edit pending: a configured "
+    "port is still used without anything being sent",
     "TLC decides every recorded vector with SocksPort.Holds18a / Holds18b; the configurations are enumerated by the Python driver",
     "through TorConfig.create_socks_endpoint the requested value is also a configured line in full, a loopback host:port listener's bare "
     "port, an absent port with option words, and every such request is also made twice in a row; the internal helper "
@@ -70,6 +72,8 @@ def run(pid, tier, seed):
             if rq is not None and ex["lines"]:
                 recs.append(sp.choose(ex, rq, "config"))
                 recs.append(sp.choose(ex, rq, "config", twice=True))
+                # the same with an unrelated, unsaved edit pending in the TorConfig
+                recs.append(sp.choose(ex, rq, "config", pending=True))
         if ex["lines"] and firsts[0] in usable:
             # TorConfig.socks_endpoint (synchronous, configured ports only): the first port, or one named by its first word
             for rq in [None] + usable[:3]:
@@ -137,7 +141,7 @@ def replay(pid, path):
         elif v.get("midboot"):
             rec = sp.midboot(dict(lines=v["base"]))
         else:
-            rec = sp.choose(dict(lines=lines, default="9050"), v["requested"] or None, v["path"], twice=v.get("twice", False), overlap=v.get("overlap", False))
+            rec = sp.choose(dict(lines=lines, default="9050"), v["requested"] or None, v["path"], twice=v.get("twice", False), overlap=v.get("overlap", False), pending=v.get("pending", False))
     else:
         rec = sp.fallback(v["outcomes"], v.get("prior") or None)
     res, r = tlc.validate_traces("SocksPortTrace", "SocksPortTrace.cfg", [dict(rec, steps=[1])])
